@@ -244,4 +244,293 @@ for trial in range(max(4, N // 10)):
         fail(f"misorientation:distance_matrix:{'same' if same else 'diff'}", f"Misorientation.get_distance_matrix differs from brute force over gl*M*gr equivalents for ({Gl.name},{Gr.name})",
              {"Gl": Gl.name, "Gr": Gr.name, "q": q.tolist()})
 
+
+# ====================================================================== audit strata (coverage holes)
+def bouter(G1, G2, A, B):
+    """brute force for every pair: result indexed A.shape[:-1] + B.shape[:-1]"""
+    sa, sb = A.shape[:-1], B.shape[:-1]
+    return brute(G1, G2, A.reshape(sa + (1,) * len(sb) + (4,)), B.reshape((1,) * len(sa) + sb + (4,)))
+
+
+def lauecls(G1, G2):
+    if G1.is_proper and G2.is_proper:
+        return "proper"
+    if G1.contains_inversion and G2.contains_inversion:
+        return "laue"
+    return "mixed"
+
+
+def equivalents(O, G):
+    """every element replaced by its own randomly chosen PROPER-equivalent g*o (and a random sign)"""
+    propers = G.data.reshape(-1, 4)[~G.improper.reshape(-1)]
+    flat = O.data.reshape(-1, 4)
+    out = np.array([qmul(propers[R.randrange(len(propers))], q) * R.choice([1.0, -1.0]) for q in flat])
+    return Orientation(out.reshape(O.shape + (4,)), symmetry=G)
+
+
+def swap_axes(d, na, nb):
+    """array indexed b-axes + a-axes -> a-axes + b-axes"""
+    return d.transpose(tuple(range(nb, nb + na)) + tuple(range(nb)))
+
+
+# ------------------------------------------------------------------ outer APIs with TWO DIFFERENT symmetries
+# (dot_outer, angle_with_outer eager/lazy each fetch their own symmetry-element set; the outer stratum above
+#  only ever uses one group for both operands)
+OPAIRS = [("3", "23"), ("m-3m", "6/mmm"), ("622", "432"), ("1m1", "32"), ("-4", "mm2"), ("222", "432"),
+          ("23", "6"), ("4", "mmm"), ("-43m", "-6m2"), ("432", "4"), ("6/mmm", "m-3m"), ("mm2", "m-3")]
+OSHAPES = [((2, 3), (4,)), ((3,), (2, 1, 2)), ((2,), (3, 1)), ((2, 2), (3, 2)), ((1,), (2, 3)), ((2, 1, 2), (1,)),
+           ((3,), (3,))]
+for t in range(len(OPAIRS) if THOROUGH or N >= 40 else 6):
+    G1, G2 = BYNAME[OPAIRS[t][0]], BYNAME[OPAIRS[t][1]]
+    sa, sb = OSHAPES[t % len(OSHAPES)]
+    cs = (1, 3, 50)[t % 3]
+    O1, O2 = mk(sa, G1), mk(sb, G2)
+    cl = pairclass(G1, G2)
+    st(f"outer-two/{cl}/{lauecls(G1, G2)}/{len(sa)}x{len(sb)}")
+    ref = bouter(G1, G2, O1.data, O2.data)
+    rep = {"G1": G1.name, "G2": G2.name, "sa": sa, "sb": sb, "o1": O1.data.tolist(), "o2": O2.data.tolist(), "chunk_size": cs}
+    d = O1.dot_outer(O2)
+    if d.shape != sa + sb or not np.allclose(d, ref, atol=TOL):
+        fail(f"dot_outer:two-sym:{cl}", f"two-phase dot_outer differs from brute force / is not indexed self.shape+other.shape for ({G1.name}, {G2.name}), shapes {sa} x {sb}", rep)
+    a = O1.angle_with_outer(O2)
+    if a.shape != sa + sb or not np.allclose(a, ang(ref), atol=1e-6):
+        fail(f"angle_with_outer:eager:two-sym:{cl}", f"two-phase angle_with_outer (eager) differs from brute force for ({G1.name}, {G2.name}), shapes {sa} x {sb}", rep)
+    al = O1.angle_with_outer(O2, lazy=True, chunk_size=cs, progressbar=False)
+    if al.shape != sa + sb or not np.allclose(al, ang(ref), atol=1e-6):
+        fail(f"angle_with_outer:lazy:two-sym:{cl}", f"two-phase angle_with_outer(lazy=True, chunk_size={cs}) differs from brute force for ({G1.name}, {G2.name}), shapes {sa} x {sb} (got shape {al.shape})", rep)
+    # symmetric in its arguments: the swapped call is the same array with the two axis blocks exchanged
+    for nm, dsw in (("dot_outer", O2.dot_outer(O1)), ("angle_with_outer:lazy", np.cos(O2.angle_with_outer(O1, lazy=True, chunk_size=cs, progressbar=False)))):
+        want = ref if nm == "dot_outer" else np.cos(ang(ref))
+        if dsw.shape != sb + sa or not np.allclose(swap_axes(dsw, len(sa), len(sb)), want, atol=1e-6):
+            fail(f"symmetric:{nm}:two-sym:{cl}", f"{nm} with swapped operands is not the transposed result for ({G1.name}, {G2.name})", rep)
+    # unchanged when EITHER argument is replaced (element by element) by a symmetry-equivalent one
+    E1, E2 = equivalents(O1, G1), equivalents(O2, G2)
+    rep2 = dict(rep, o1_equivalent=E1.data.tolist(), o2_equivalent=E2.data.tolist())
+    if not np.allclose(E1.dot_outer(O2), d, atol=TOL):
+        fail("invariance:dot_outer:self", "dot_outer changes when self is replaced by symmetry-equivalent orientations", rep2)
+    if not np.allclose(O1.dot_outer(E2), d, atol=TOL):
+        fail("invariance:dot_outer:other", "dot_outer changes when other is replaced by symmetry-equivalent orientations", rep2)
+    if not np.allclose(E1.angle_with_outer(E2, lazy=True, chunk_size=cs, progressbar=False), ang(ref), atol=1e-6):
+        fail("invariance:angle_with_outer:lazy", "lazy angle_with_outer changes when both arguments are replaced by symmetry-equivalent orientations", rep2)
+
+# ------------------------------------------------------------------ degrees=True keyword on every API that has it
+DG = [BYNAME["432"], BYNAME["m-3m"], BYNAME["-4"], BYNAME["622"]]
+for t in range(4):
+    G = DG[t]
+    G2 = (G, BYNAME["222"], BYNAME["6/mmm"], G)[t]
+    sa, sb = (((3,), (3,)), ((2, 2), (2, 2)), ((2,), (3, 1)), ((4,), (2,)))[t]
+    O1, O2 = mk(sa, G), mk(sb, G2)
+    st("degrees/" + ("same" if G is G2 else "two"))
+    rep = {"G1": G.name, "G2": G2.name, "sa": sa, "sb": sb, "o1": O1.data.tolist(), "o2": O2.data.tolist()}
+    refo = np.rad2deg(ang(bouter(G, G2, O1.data, O2.data)))
+    if sa == sb:
+        refp = np.rad2deg(ang(brute(G, G2, O1.data, O2.data)))
+        ap = O1.angle_with(O2, degrees=True)
+        if ap.shape != refp.shape or not np.allclose(ap, refp, atol=1e-4):
+            fail("degrees:angle_with", "angle_with(degrees=True) is not the brute-force minimum angle in degrees", rep)
+    for lz in (False, True):
+        kw = {"lazy": True, "chunk_size": 2, "progressbar": False} if lz else {}
+        a = O1.angle_with_outer(O2, degrees=True, **kw)
+        if a.shape != refo.shape or not np.allclose(a, refo, atol=1e-4):
+            fail(f"degrees:angle_with_outer:{'lazy' if lz else 'eager'}", "angle_with_outer(degrees=True) is not the brute-force minimum angle in degrees", rep)
+        D = O1.get_distance_matrix(degrees=True, **kw)
+        refD = np.rad2deg(ang(bouter(G, G, O1.data, O1.data)))
+        if D.shape != refD.shape or not np.allclose(D, refD, atol=1e-4):
+            fail(f"degrees:distance_matrix:orientation:{'lazy' if lz else 'eager'}", "Orientation.get_distance_matrix(degrees=True) is not the brute-force minimum angle in degrees", rep)
+
+# ------------------------------------------------------------------ Orientation.get_distance_matrix: lazy path, >1 axes
+DMG = [BYNAME["m-3m"], BYNAME["622"], BYNAME["-4"], BYNAME["3"], BYNAME["mm2"], BYNAME["432"]]
+DMS = [(2, 3), (5,), (2, 1, 2), (1,), (3, 1), (2, 2)]
+for t in range(len(DMG)):
+    G, sa, cs = DMG[t], DMS[t], (2, 1, 3)[t % 3]
+    O1 = mk(sa, G)
+    # a repeated and an equivalent element: exact zeros off the diagonal as well
+    if O1.size >= 3:
+        f = O1.data.reshape(-1, 4).copy()
+        f[1] = f[0]
+        f[2] = equivalents(Orientation(f[:1], symmetry=G), G).data[0]
+        O1 = Orientation(f.reshape(sa + (4,)), symmetry=G)
+    st(f"distmat/ndim{len(sa)}")
+    refD = ang(bouter(G, G, O1.data, O1.data))
+    rep = {"G": G.name, "shape": sa, "o": O1.data.tolist(), "chunk_size": cs}
+    for lz in (False, True):
+        kw = {"lazy": True, "chunk_size": cs, "progressbar": False} if lz else {}
+        D = O1.get_distance_matrix(**kw)
+        tag = "lazy" if lz else "eager"
+        if D.shape != sa + sa or not np.allclose(D, refD, atol=1e-6):
+            fail(f"distance_matrix:orientation:{tag}:ndim{min(len(sa), 2)}", f"Orientation.get_distance_matrix({'lazy=True' if lz else ''}) differs from brute force / is not indexed shape+shape for shape {sa}", rep)
+        elif O1.size >= 3 and not (abs(D.reshape(O1.size, O1.size)[0, 1]) < 1e-6 and abs(D.reshape(O1.size, O1.size)[0, 2]) < 1e-6
+                                   and np.all(np.abs(np.diag(D.reshape(O1.size, O1.size))) < 1e-6)):
+            fail(f"distance_matrix:orientation:{tag}:zero-for-equivalent", "distance between equal/equivalent orientations is not zero", rep)
+
+# ------------------------------------------------------------------ pairwise APIs with broadcasting operands
+BC = [((4,), (1,)), ((1,), (4,)), ((2, 3), (3,)), ((3,), (2, 3)), ((2, 1), (1, 3)), ((2, 1, 2), (1, 1)), ((2, 2), (2, 2))]
+BG = [("432", "432"), ("m-3m", "m-3m"), ("432", "622"), ("m-3m", "6/mmm"), ("-4", "-4"), ("23", "6"), ("3", "23")]
+for t in range(len(BC)):
+    sa, sb = BC[t]
+    G1, G2 = BYNAME[BG[t][0]], BYNAME[BG[t][1]]
+    O1, O2 = mk(sa, G1), mk(sb, G2)
+    st(f"broadcast/{len(sa)}x{len(sb)}/{'same' if G1 is G2 else 'two'}")
+    b = brute(G1, G2, O1.data, O2.data)          # numpy broadcasting of the two data arrays
+    rep = {"G1": G1.name, "G2": G2.name, "sa": sa, "sb": sb, "o1": O1.data.tolist(), "o2": O2.data.tolist()}
+    kind = "broadcast" if sa != sb else "2d"
+    try:
+        d = O1.dot(O2)
+        if d.shape != b.shape or not np.allclose(d, b, atol=TOL):
+            fail(f"dot:{kind}", f"Orientation.dot for shapes {sa}, {sb} differs from brute force on the broadcast operands", rep)
+        a = O1.angle_with(O2)
+        if a.shape != b.shape or not np.allclose(a, ang(b), atol=1e-6):
+            fail(f"angle_with:{kind}", f"angle_with for shapes {sa}, {sb} differs from brute force on the broadcast operands", rep)
+        am = np.asarray((O2 - O1).angle)
+        if am.size != b.size or not np.allclose(am.reshape(-1), ang(b).reshape(-1), atol=1e-6):
+            fail(f"sub:angle:{kind}", f"(O2 - O1).angle for shapes {sb}, {sa} differs from brute force on the broadcast operands", rep)
+    except NotImplementedError:
+        st("sub/no-region-defined")
+    except Exception as e:  # noqa
+        fail(f"pairwise:{kind}:raises", f"pairwise API raises {type(e).__name__}: {e} for shapes {sa}, {sb}", rep)
+
+# ------------------------------------------------------------------ boundary of the disorientation zone
+# O2 = h*O1 with h the HALF rotation of a symmetry operation (same axis, half the angle): two equivalents tie, the
+# misorientation lies exactly on a face of the zone; also the exact inputs (identity, h).
+for G in gsel:
+    propers = G.data.reshape(-1, 4)[~G.improper.reshape(-1)]
+    hs = []
+    for g in propers:
+        g = g if g[0] >= 0 else -g
+        w = 2 * math.acos(min(1.0, max(-1.0, g[0])))
+        if w < 1e-9:
+            continue
+        ax = g[1:] / np.linalg.norm(g[1:])
+        hs.append(np.r_[math.cos(w / 4), math.sin(w / 4) * ax])
+    if not hs:
+        continue
+    hs = np.array(hs)
+    for exact in (False, True):
+        o1 = np.tile([1.0, 0, 0, 0], (len(hs), 1)) if exact else np.array([rand_unit_quat(R) for _ in hs])
+        o2 = qmul(hs, o1)
+        O1, O2 = Orientation(o1, symmetry=G), Orientation(o2, symmetry=G)
+        st("boundary/" + ("exact" if exact else "random"))
+        b = brute(G, G, o1, o2)
+        rep = {"G1": G.name, "G2": G.name, "o1": o1.tolist(), "o2": o2.tolist()}
+        if not np.allclose(O1.dot(O2), b, atol=TOL) or not np.allclose(O2.dot(O1), b, atol=TOL):
+            fail("dot:boundary", f"Orientation.dot differs from brute force for misorientations on the boundary of the zone of {G.name}", rep)
+        k = min(len(hs), 6)
+        al = O1[:k].angle_with_outer(O2[:k], lazy=True, chunk_size=2, progressbar=False)
+        if not np.allclose(al, ang(bouter(G, G, o1[:k], o2[:k])), atol=1e-6):
+            fail("angle_with_outer:lazy:boundary", f"lazy angle_with_outer differs from brute force on the boundary of the zone of {G.name}", rep)
+        pn = G.proper_subgroup.name
+        aw = O1.angle_with(O2)
+        if pn in MAXDIS and np.rad2deg(aw.max()) > MAXDIS[pn] + 1e-3:
+            fail("max-disorientation:boundary", f"angle {np.rad2deg(aw.max())} exceeds the maximum disorientation angle of {pn}", rep)
+        try:
+            am = np.asarray((O2 - O1).angle).reshape(-1)
+            if am.shape != b.shape or not np.allclose(am, ang(b), atol=1e-6):
+                fail("sub:angle:boundary", f"(O2 - O1).angle differs from the brute-force minimum on the boundary of the zone of {G.name}", rep)
+        except NotImplementedError:
+            st("sub/no-region-defined")
+        except Exception as e:  # noqa
+            fail("sub:raises", f"O2 - O1 raises {type(e).__name__} for {G.name} (boundary)", rep)
+
+# ------------------------------------------------------------------ operands with a history / other constructors
+HG = [BYNAME["m-3m"], BYNAME["622"], BYNAME["-4"], BYNAME["23"]]
+for t in range(len(HG)):
+    G = HG[t]
+    G2 = G if t % 2 == 0 else BYNAME["222"]
+    B0 = mk((2, 3), G)
+    O2 = mk((2,), G2)
+    eu = B0.to_euler()
+    via_setter = Orientation(B0.data.copy())
+    via_setter.symmetry = G
+    derived = {
+        "reshape": B0.reshape(3, 2), "transpose": B0.transpose(), "getitem": B0[::-1, 1:],
+        "flatten": B0.flatten(), "inv-inv": ~(~B0), "unit": B0.unit, "squeeze": B0[:, :1].squeeze(),
+        "from_euler": Orientation.from_euler(eu, symmetry=G), "setter": via_setter,
+        "from_matrix": Orientation.from_matrix(B0.to_matrix(), symmetry=G),
+    }
+    # (not used: -O toggles the improper flag; Orientation.stack drops the symmetry by design;
+    #  Orientation.map_into_symmetry_reduced_zone multiplies on the right -- the known C06 finding)
+    for step, X in derived.items():
+        st(f"history/{step}")
+        rep = {"G1": G.name, "G2": G2.name, "step": step, "base": B0.data.tolist(), "o2": O2.data.tolist()}
+        if step in ("from_euler", "from_matrix"):
+            xd = B0.data                           # the same orientations (up to sign / equivalents)
+            if X.shape != B0.shape:
+                fail(f"history:{step}", f"{step} changes the shape", rep)
+                continue
+        else:
+            xd = X.data
+        try:
+            if not isinstance(X, Orientation) or X.symmetry.name != G.name:
+                fail(f"history:{step}", f"operand obtained by '{step}' lost its symmetry ({getattr(getattr(X, 'symmetry', None), 'name', None)} instead of {G.name})", rep)
+                continue
+            ref = bouter(G, G2, xd, O2.data)
+            d = X.dot_outer(O2)
+            dl = X.angle_with_outer(O2, lazy=True, chunk_size=2, progressbar=False)
+            dr = O2.angle_with_outer(X)
+            if d.shape != ref.shape or not np.allclose(d, ref, atol=1e-6) or not np.allclose(dl, ang(ref), atol=1e-6) \
+                    or not np.allclose(swap_axes(dr, X.ndim, O2.ndim), ang(ref), atol=1e-6):
+                fail(f"history:{step}", f"symmetry-reduced dot/angle of an operand obtained by '{step}' differs from brute force", rep)
+        except Exception as e:  # noqa
+            fail(f"history:{step}:raises", f"{type(e).__name__}: {e}", rep)
+
+# ------------------------------------------------------------------ integer dtype and empty operands
+G = BYNAME["432"]
+ia = np.array([[1, 0, 0, 0], [1, 1, 0, 0], [2, 0, 0, 1], [0, 0, 0, 1]])
+ib = np.array([[1, 1, 1, 1], [0, 0, 1, 0], [1, 0, 2, 0], [3, -1, 0, 0]])
+fa, fb = ia / np.linalg.norm(ia, axis=1)[:, None], ib / np.linalg.norm(ib, axis=1)[:, None]
+I1, I2 = Orientation(ia, symmetry=G), Orientation(ib, symmetry=BYNAME["m-3m"])
+st("dtype/int")
+rep = {"G1": "432", "G2": "m-3m", "o1": ia.tolist(), "o2": ib.tolist()}
+try:
+    if not np.allclose(I1.dot(I2), brute(G, BYNAME["m-3m"], fa, fb), atol=TOL) \
+            or not np.allclose(I1.angle_with_outer(I2), ang(bouter(G, BYNAME["m-3m"], fa, fb)), atol=1e-6) \
+            or not np.allclose(I1.angle_with_outer(I2, lazy=True, chunk_size=3, progressbar=False), ang(bouter(G, BYNAME["m-3m"], fa, fb)), atol=1e-6):
+        fail("int-dtype", "integer-typed quaternion input gives a different reduced dot/angle than the same numbers as floats", rep)
+except Exception as e:  # noqa
+    fail("int-dtype:raises", f"{type(e).__name__}: {e}", rep)
+E0 = Orientation(np.zeros((0, 4)), symmetry=G)
+F4 = mk((2, 2), G)
+for nm, fn, shp in (("dot", lambda: E0.dot(E0), (0,)), ("dot_outer:self", lambda: E0.dot_outer(F4), (0, 2, 2)),
+                    ("dot_outer:other", lambda: F4.dot_outer(E0), (2, 2, 0)),
+                    ("angle_with_outer:eager", lambda: F4.angle_with_outer(E0), (2, 2, 0)),
+                    ("distance_matrix:eager", lambda: E0.get_distance_matrix(), (0, 0)),
+                    ("angle_with_outer:lazy", lambda: E0.angle_with_outer(F4, lazy=True, progressbar=False), (0, 2, 2)),
+                    ("distance_matrix:lazy", lambda: E0.get_distance_matrix(lazy=True, progressbar=False), (0, 0))):
+    st("empty/" + nm)
+    rep = {"G": "432", "api": nm, "empty_shape": [0], "other_shape": [2, 2], "o": F4.data.tolist()}
+    try:
+        got = np.asarray(fn()).shape
+        if got != shp:
+            fail(f"empty:{nm}:shape", f"{nm} with an empty operand returns shape {got}, expected {shp} (self.shape + other.shape)", rep)
+    except Exception as e:  # noqa
+        fail(f"empty:{nm}:raises", f"{nm} with an empty operand raises {type(e).__name__}: {e}", rep)
+
+# ------------------------------------------------------------------ Misorientation.get_distance_matrix: Gl = Gr with
+# improper operations, >1 axes, several chunk sizes, degrees (equivalents gl*M*gr with gl, gr both proper or both improper)
+# (chunk_size also chunks the symmetry axes: small chunks only with small groups, or the call takes minutes)
+MG = [("432", (2,), 20), ("m-3m", (2,), 20), ("mmm", (2, 1, 2), 3), ("-4", (3,), 2), ("4mm", (2, 2), 2),
+      ("-43m", (2,), 20), ("622", (1,), 5), ("-1", (2, 3), 1), ("222", (2, 2), 1), ("3m", (3,), 2)]
+for t in range(len(MG)):
+    G, sa, cs = BYNAME[MG[t][0]], MG[t][1], MG[t][2]
+    n = int(np.prod(sa))
+    q = np.array([rand_unit_quat(R) for _ in range(n)])
+    Mi = Misorientation(q.reshape(sa + (4,)), symmetry=(G, G))
+    cls = "proper" if G.is_proper else ("laue" if G.contains_inversion else "improper-noinv")
+    st(f"misdist-same/{cls}/ndim{len(sa)}")
+    deg = t % 2 == 1
+    D = Mi.get_distance_matrix(chunk_size=cs, progressbar=False, degrees=deg)
+    gd, gi = G.data.reshape(-1, 4), G.improper.reshape(-1)
+    ref = np.zeros((n, n))
+    for i in range(n):
+        for j in range(n):
+            eq = np.array([qmul(c, qmul(q[j], dd)) for c, ci in zip(gd, gi) for dd, di in zip(gd, gi) if ci == di])
+            ref[i, j] = ang(np.max(np.abs(eq @ q[i])))
+    if deg:
+        ref = np.rad2deg(ref)
+    rep = {"Gl": G.name, "Gr": G.name, "shape": sa, "chunk_size": cs, "degrees": deg, "q": q.tolist()}
+    if D.shape != sa + sa:
+        fail("misorientation:distance_matrix:same:shape", f"Misorientation.get_distance_matrix returns shape {D.shape} for shape {sa}", rep)
+    elif not np.allclose(D.reshape(n, n), ref, atol=1e-4 if deg else 1e-6):
+        fail(f"misorientation:distance_matrix:same:{cls}", f"Misorientation.get_distance_matrix(chunk_size={cs}, degrees={deg}) differs from brute force over the equivalents gl*M*gr (gl, gr both proper or both improper) for ({G.name},{G.name}), shape {sa}: max difference {float(np.max(np.abs(D.reshape(n, n) - ref))):.4f} {'deg' if deg else 'rad'}", rep)
+
 emit({"cases": cases, "fails": fails, "strata": strata})
